@@ -17,17 +17,20 @@ B: for real models (neurons x synapses x connections with and without delays x l
    public getters of A and B at the load and at every later step.
 """
 from __future__ import annotations
-import copy, json, random
+import copy, json, os, random
 from ..core import Check, MachineryFailure
 from .. import tlc, tracecheck
-from ..impl_checkpoint import (Bundle, Interner, freeze, differing, make_inputs, LAYERS, CONNS, SYNS, NEURONS, TRAINERS)
+import copy as _copy
+from ..impl_checkpoint import (Bundle, Interner, freeze, differing, make_inputs, probe_infer, LAYERS, CONNS, SYNS, NEURONS,
+                                TRAINERS)
+from ..impl_checkpoint import torch, MaxRateClassifier
 
 PID = "C12"
 
 
 # ------------------------------------------------------------------------------------------ T
 def run_protocol_mc(chk, thorough):
-    nv, mt = (4, 4) if thorough else (3, 3)
+    nv, mt = (4, 4) if thorough else (3, 2)
     c = dict(NVars=nv, MaxT=mt, MaxPrior=2, Tables="all")
     res = tlc.run("CheckpointMC", tlc.cfg_text(constants=c, invariants=["TypeOK", "FuturesEqual"]), workers=4, timeout=3000)
     if res.violated:
@@ -74,7 +77,7 @@ def derive_table(cfg, seed, n=4):
 
 def group_tokens(it: Interner, b: Bundle, outs):
     reg, _ = b.registered()
-    return {"out": it.group({f"out{i}": y for i, y in enumerate(outs["out"])} | {"pred": outs["pred"], "logits": outs["logits"]})
+    return {"out": it.group({f"out{i}": y for i, y in enumerate(outs["out"])} | {k: v for k, v in outs.items() if k != "out"})
             if outs is not None else 0,
             "sd": it.group(b.statedicts()), "reg": it.group({k: v[0] for k, v in reg.items()}),
             "pub": it.group(b.public())}
@@ -93,8 +96,8 @@ def group_detail(a: Bundle, b: Bundle, oa, ob):
     if x:
         d["pub"] = x[:12]
     if oa is not None and ob is not None:
-        fa = {f"out{i}": y for i, y in enumerate(oa["out"])} | {"pred": oa["pred"], "logits": oa["logits"]}
-        fb = {f"out{i}": y for i, y in enumerate(ob["out"])} | {"pred": ob["pred"], "logits": ob["logits"]}
+        fa = {f"out{i}": y for i, y in enumerate(oa["out"])} | {k: v for k, v in oa.items() if k != "out"}
+        fb = {f"out{i}": y for i, y in enumerate(ob["out"])} | {k: v for k, v in ob.items() if k != "out"}
         x = differing(fa, fb)
         if x:
             d["out"] = x
@@ -121,16 +124,35 @@ def one_trace(cfg, table, seeds, k, target, T):
            "table": [{"name": key, "cls": table[key]["cls"]} for key in keys], "waive": []}
     evs = [{"op": {"a": "save", "k": k}, "ret": {"vars": tokv(regA)}}]
     det = [{"volatile": [key for key in keys if table[key]["cls"] == "volatile"]}]
-    B = Bundle(cfg, sb)
+    # target kinds: fresh (+ one warm-up step) | prior (run on other data) | factory-to (built by a
+    # factory and passed through .to) | copy-pristine / copy-prior (the classifier of the target is a
+    # copy.deepcopy of a pristine template / of the target's own trained classifier)
+    if target == "factory-to":
+        def factory():
+            b = Bundle(cfg, sb)
+            for part in b.parts().values():
+                part.to(torch.float32)
+            return b
+        B = factory()
+    else:
+        B = Bundle(cfg, sb)
+    short = target in ("fresh", "factory-to", "copy-pristine")
     if k == 0:
         m = 0                                  # an unshaped checkpoint fits an unshaped target only
-    elif target == "fresh":
+    elif short:
         m = 1 if upd == 1 else (1 if k % upd == 1 else upd)
     else:
         m = 3 + (k % 2) if upd == 1 else (k % upd) + upd
     ys, yl, yr = make_inputs(B, sy, max(m, 1))
+    if target == "copy-pristine":
+        template = MaxRateClassifier(B.clf.shape, 3, decay=0.1)
+        B.keepalive.append(template)
+        B.clf = _copy.deepcopy(template)
     for t in range(m):
         B.step(ys[t], yl[t], yr[t])
+    if target == "copy-prior":
+        B.keepalive.append(B.clf)              # the original stays alive next to its copy
+        B.clf = _copy.deepcopy(B.clf)
     before = B.registered()[0]
     hdr["differs_before_load"] = it.group(B.statedicts()) != it.group(A.statedicts())
     try:
@@ -144,9 +166,11 @@ def one_trace(cfg, table, seeds, k, target, T):
     bad = [keys[i] for i in range(len(keys))
            if (table[keys[i]]["cls"] in ("persisted", "derived") and ta[i] != tA[i])
            or (table[keys[i]]["cls"] == "config" and (ta[i] != tb_[i] or ta[i] != tA[i]))]
-    ga, gb = group_tokens(it, A, None), group_tokens(it, B, None)
+    # classification right after the load, before any update
+    ia, ib = probe_infer(A, sx + 17), probe_infer(B, sx + 17)
+    ga, gb = group_tokens(it, A, ia), group_tokens(it, B, ib)
     evs.append({"op": {"a": "load", "m": m}, "ret": {"t": "ok", "before": tb_, "after": ta, "a": ga, "b": gb}})
-    det.append({"not_restored": bad[:20], "groups": group_detail(A, B, None, None) if ga != gb else {}})
+    det.append({"not_restored": bad[:20], "groups": group_detail(A, B, ia, ib) if ga != gb else {}})
     for t in range(k, k + post):
         oa = A.step(xs[t], ls[t], rs[t])
         ob = B.step(xs[t], ls[t], rs[t])
@@ -194,8 +218,10 @@ def choose_configs(rng, thorough):
     cfgs.append(dict(base, delayed=False))
     cfgs.append(dict(base, inplace=True))
     cfgs.append(dict(base, update_every=2))
+    cfgs.append(dict(base, resized=True))                               # histories lengthened from one slot by setters
+    cfgs.append(dict(base, resized=True, syn="delta", trainer="stdp-delayed", inplace=True))
     cfgs.append(dict(base, layer="recurrent", trainer="mstdpet", update_every=2, inplace=True))
-    n_rand = 30 if thorough else 6
+    n_rand = 30 if thorough else 2
     tries = 0
     while n_rand and tries < 1000:
         tries += 1
@@ -209,10 +235,10 @@ def choose_configs(rng, thorough):
     if not thorough:
         # quick tier: the base, every layer kind, every trainer, and a sample of the rest
         keep = [c for c in cfgs if c == base or c["layer"] != "serial" or c["trainer"] not in ("stdp",)
-                or c.get("update_every") or c["inplace"] or c["conn"] != "dense"]
+                or c.get("update_every") or c["inplace"] or c["conn"] != "dense" or c.get("resized")]
         rest = [c for c in cfgs if c not in keep]
         rng.shuffle(rest)
-        cfgs = keep + rest[:3]
+        cfgs = keep
     return cfgs
 
 
@@ -224,7 +250,7 @@ def signature_of(clause, cfg, detail, names):
     else:
         g = detail.get("groups", {})
         keys = g.get({"StateEq": "sd", "RegEq": "reg", "PubEq": "pub", "OutEq": "out", "LoadEq": "sd"}.get(clause, "sd"), []) \
-            or g.get("reg", []) or g.get("pub", [])
+            or g.get("reg", []) or g.get("pub", []) or g.get("out", [])
     if keys:
         first = keys[0]
         part = first.split(":")[0] if ":" in first else first.split(".")[0]
@@ -253,10 +279,18 @@ def run_traces(chk, rng, thorough):
             continue
         tables[json.dumps(cfg, sort_keys=True)] = table
         ks = list(range(0, T + 1))
+        extras = ("factory-to", "copy-pristine", "copy-prior")
         for k in ks:
-            for target in ("fresh", "prior"):
-                if k == 0 and target == "prior":
+            for target in ("fresh", "prior") + extras:
+                if k == 0 and target in ("prior", "copy-prior"):
                     continue
+                if target in extras and not thorough:
+                    # quick tier: all extra kinds on the first configurations at a few k, one rotating kind elsewhere
+                    if ci < 3:
+                        if k not in (0, 1, 3, T):
+                            continue
+                    elif k != 2 or target != extras[ci % 3]:
+                        continue
                 seeds = (seed, seed + 1, seed * 3 + k, seed * 5 + k + 1)
                 tr, det, spikes = one_trace(cfg, table, seeds, k, target, T)
                 traces.append(tr)
@@ -344,6 +378,39 @@ def canary(chk, traces, rej):
     chk.note(f"canary: corrupted experiments rejected ({', '.join(c for c, _, _ in results)})")
 
 
+def probe_deepcopy(chk):
+    """Is a copy.deepcopy of an inferno component 'another instance'?  Deep-copied classifiers are
+    used as restore targets above; for the other parts this probe records what the tree does."""
+    from ..impl_checkpoint import _neuron, Bundle as _B
+    n = _neuron("lif", (3,), 1)
+    try:
+        c = _copy.deepcopy(n)
+        v0 = n.voltage.clone()
+        c(torch.full((1, 3), 500.0))
+        aliased = not torch.equal(n.voltage, v0)
+        stale = torch.equal(c._buffers.get("_voltage__data", c.voltage), v0) if "_voltage__data" in c._buffers else False
+        if aliased:
+            chk.violation({"clause": "CopyIndependent", "site": "deepcopy-probe", "part": "neuron"},
+                          {"what": "stepping copy.deepcopy(LIF) changed the ORIGINAL neuron's voltage",
+                           "original_voltage_before": v0.tolist(), "original_voltage_after": n.voltage.tolist(),
+                           "copy_own_buffer_unchanged": bool(stale)})
+        else:
+            chk.note("deepcopy probe: a deep-copied neuron is independent of its original")
+    except Exception as e:
+        chk.note(f"deepcopy probe: neurons cannot be deep-copied ({type(e).__name__})")
+    cfg = dict(layer="serial", conn="dense", syn="delta", neuron="lif", trainer="stdp", delayed=False, inplace=False)
+    b = _B(cfg, 1)
+    for name, part in b.parts().items():
+        if name == "clf":
+            continue
+        try:
+            _copy.deepcopy(part)
+            chk.note(f"deepcopy probe: {name} can be deep-copied (not used as a restore target: shares the neuron limitation)")
+        except Exception as e:
+            chk.note(f"deepcopy probe: {name} cannot be deep-copied ({type(e).__name__}: {str(e)[:60]}); "
+                     "deep-copied restore targets are limited to the classifier")
+
+
 def run(tier: str, seed: int) -> int:
     chk = Check(PID, tier, seed)
     rng = random.Random(seed)
@@ -358,8 +425,11 @@ def run(tier: str, seed: int) -> int:
     run_protocol_mc(chk, thorough)
     traces, rej = run_traces(chk, rng, thorough)
     canary(chk, traces, rej)
+    probe_deepcopy(chk)
     # extensions of the specification beyond the listed property (DESIGN section 7)
-    run_module_extras(chk, rng, thorough)
+    if not os.environ.get("G6_SKIP_EXT"):
+        run_module_extras(chk, rng, thorough)
+        run_classifier(chk, rng, thorough)
     return chk.finish()
 
 
@@ -415,8 +485,8 @@ def run_module_extras(chk, rng, thorough):
     mc("extras-can-hold-tensors", "a", ALLK, 1000, ["ExtrasTyped"], must_fail="ExtrasTyped")
     mc("mismatched-load-shadows", "a", ALLK, 1000, ["ExclusiveInv"], mismatch=True, must_fail="ExclusiveInv")
 
-    gens = [("1name", "a", ALLK, 1000, None if thorough else 1500),
-            ("2names", "ab", ALLK - {"persist"}, 1000, None if thorough else 1500)]
+    gens = [("1name", "a", ALLK, 1000, None if thorough else 600),
+            ("2names", "ab", ALLK - {"persist"}, 1000, None if thorough else 600)]
     first = None
     for name, names, kinds, depth, budget in gens:
         c = dict(Names=set(names), OpKinds=set(kinds), AllowMismatch=False, MaxDepth=depth)
@@ -458,3 +528,74 @@ def run_module_extras(chk, rng, thorough):
     if not any(s.get("clause") == "RetOK" for s in seen):
         raise MachineryFailure("canary: a deviating Module replay was not reported")
     chk.note(f"canary extras: deviating replay reported ({len(seen)} mismatches)")
+
+
+# ------------------------------------------------------------------------------------------
+# Extension phase 3 (DESIGN section 7, item 3): MaxRateClassifier as an exact state machine
+# ------------------------------------------------------------------------------------------
+def run_classifier(chk, rng, thorough):
+    from .. import graph
+    from ..impl_classifier import ClassifierImpl
+    INV = ["TypeOK", "DerivedInv", "Refinement", "OccSum"]
+
+    def consts(n, rinit="derive", rhook="recompute", b=2, maxrow=None):
+        return dict(N=n, K=2, B=b, InVals={0, 2}, XVals={0, 1, 2} if thorough else {0, 2},
+                    MaxRow=(4 if thorough else 2) if maxrow is None else maxrow, RInit=rinit, RHook=rhook)
+
+    def mc(name, c, must_fail=False):
+        res = tlc.run("ClassifierMC", tlc.cfg_text(constants=c, invariants=INV), workers=4, timeout=3000)
+        if must_fail:
+            if not res.violated:
+                raise MachineryFailure(f"classifier rule {name} was not rejected by TLC: {res.out[-1500:]}")
+            chk.note(f"mc classifier {name}: rejected by TLC, violated={res.violated}")
+            return
+        if res.violated:
+            chk.violation({"clause": "MC:" + ",".join(res.violated), "site": "spec:Classifier", "config": name},
+                          {"config": name, "tlc_tail": res.out[-4000:]})
+        elif not res.ok:
+            raise MachineryFailure(f"ClassifierMC {name} did not complete: {res.out[-2000:]}")
+        chk.add_tlc("mc:classifier-" + name, res)
+        chk.note(f"mc classifier {name}: {res.distinct} states, {res.generated} transitions, depth {res.depth}, {res.wall:.1f}s")
+
+    mc("N2", consts(2))
+    if thorough:
+        mc("N3", consts(3, b=2))
+    # what the constructor / the load hook must do, as rules TLC rejects
+    mc("rule constructor leaves zeros", consts(2, rinit="zeros", maxrow=0), must_fail=True)
+    mc("rule no load hook", consts(2, rhook="none", maxrow=0), must_fail=True)
+    mc("rule hook bound to the registering object", consts(2, rhook="closure", maxrow=0), must_fail=True)
+
+    c = consts(2)
+    res = tlc.run("ClassifierMC", tlc.cfg_text(constants=c, invariants=["Emit"]), workers=1, timeout=3000)
+    if not res.ok:
+        raise MachineryFailure(f"classifier generation failed: {res.out[-2000:]}")
+    g = graph.Graph.from_lines(res.printed())
+    if len(g.states) != res.distinct:
+        raise MachineryFailure(f"classifier graph: {len(g.states)} states printed, TLC reports {res.distinct}")
+    chk.add_tlc("gen:classifier", res)
+    make = lambda: ClassifierImpl(2, 2)  # noqa: E731
+    init_key = graph.canon(make().project())
+    if init_key not in g.states:
+        raise MachineryFailure(f"classifier: initial implementation state not in graph: {init_key}")
+
+    def on_mismatch(sig, rep):
+        op = rep.get("op") or {}
+        sig = dict(sig, site="classifier-" + sig.get("site", ""), kind=op.get("kind"))
+        chk.violation(sig, dict(rep, extension="Classifier"))
+
+    stats = graph.replay(g, init_key, make, budget=None if thorough else 1000, rng=rng, on_mismatch=on_mismatch,
+                         max_mismatch=20, op_class=lambda op: f"{op.get('a')}:{op.get('kind')}:{op.get('prop')}")
+    chk.evaluations += stats.edges
+    for k, o in stats.pairs:
+        chk.nontrivial.add(("classifier", k, o))
+    chk.note(f"replay classifier: {stats.edges} edges of {g.n_edges}, {len(stats.states_visited)}/{len(g.states)} states, "
+             f"mismatches={len(stats.mismatches)}")
+    seen = []
+
+    def deviate(op, ret, st):
+        return ret, dict(st, oc=[st["oc"][0] + 1] + st["oc"][1:])
+    graph.replay(g, init_key, make, budget=200, rng=rng, on_mismatch=lambda s, r: seen.append(s), deviate=deviate,
+                 max_mismatch=5)
+    if not seen:
+        raise MachineryFailure("canary: a classifier replay with wrong occurrences was not reported")
+    chk.note(f"canary classifier: deviating replay reported ({len(seen)} mismatches)")
